@@ -26,7 +26,9 @@ def thresholds(n):
 def plan(tier):
     if tier == "quick":
         specs = [(2, [("dense", 1, 5), ("bounded", 3, 6, 7)], MENU_Q), (3, [("dense", 1, 3)], MENU_Q[:3]),
-                 (4, [("dense", 1, 2)], MENU_Q[:2]), (5, [("dense", 1, 1), ("bounded", 1, 2, 2)], MENU_Q[:2])]
+                 (4, [("dense", 1, 2)], MENU_Q[:2]), (4, [("bounded", 1, 3, 4)], MENU_Q[:3]),
+                 (5, [("dense", 1, 1), ("bounded", 1, 2, 2)], MENU_Q[:2]),
+                 (5, [("bounded", 1, 3, 3)], MENU_Q[:1])]
     else:
         specs = [(2, [("dense", 1, 6), ("bounded", 3, 7, 9)], MENU_T), (3, [("dense", 1, 4)], MENU_Q),
                  (4, [("dense", 1, 2), ("bounded", 2, 3, 3)], MENU_Q),
